@@ -28,4 +28,5 @@ var (
 	ErrInternalRewardsNotFound = sdkerrors.Register(ModuleName, 1118, "Internal rewards not found")
 	ErrStablemintVaultFound    = sdkerrors.Register(ModuleName, 1119, "Can't give reward to stablemint vault")
 	ErrDisabledPool            = sdkerrors.Register(ModuleName, 1120, "diabled pool")
+	ErrInvalidTotalTriggers    = sdkerrors.Register(ModuleName, 1121, "total epochs/triggers should be positive")
 )
